@@ -3,15 +3,15 @@
 import json, os, shutil, sys, subprocess
 pid, m, needs = sys.argv[1], sys.argv[2], sys.argv[3]
 RND = os.environ.get("ROUND", "1")
-R2 = RND in ("2", "3")   # rounds 2 and 3: sub-agents worked on the current tree (all fixes applied)
-root = {"1": "/tmp/mut", "2": "/tmp/mut2", "3": "/tmp/mut3"}[RND]
+R2 = RND in ("2", "3", "4")   # rounds 2 and 3: sub-agents worked on the current tree (all fixes applied)
+root = {"1": "/tmp/mut", "2": "/tmp/mut2", "3": "/tmp/mut3", "4": "/tmp/mut4"}[RND]
 src = f"{root}/{pid}/_out/{m}"
 dst = f"/verif/seeded/{pid}-r{RND}-{m}" if R2 else f"/verif/seeded/{pid}-{m}"
 os.makedirs(dst, exist_ok=True)
 for f in ["patch.diff", "demo.diff", "NOTES.md", "patch.rebased.diff"]:
     if os.path.exists(f"{src}/{f}"):
         shutil.copy(f"{src}/{f}", f"{dst}/{f}")
-lf = {"1": "/tmp/confirm_batch1.log", "2": "/tmp/confirm_round2.log", "3": "/tmp/confirm_round3.log"}[RND]
+lf = {"1": "/tmp/confirm_batch1.log", "2": "/tmp/confirm_round2.log", "3": "/tmp/confirm_round3.log", "4": "/tmp/confirm_round4.log"}[RND]
 log = open(lf).read() if os.path.exists(lf) else ""
 conf = [l for l in log.splitlines() if f"{root}/{pid}/_out/{m}:" in l]
 meta = {
